@@ -328,7 +328,7 @@ def recv_guards(rep, u):
                       not (ps and ps[-1].get("k") == "call"), (0, 1), (1,), targets=[cpos],
                       target_desc="callback dispatch", require_dominance=True)
     # one dispatch per iteration: every cycle through the call block passes the loop increment
-    incs = [pos[0] for pos, root, n, ps in fn.nodes() if n.get("k") == "un" and n["op"] in ("post++", "pre++") and key(n["e"]) == "i"]
+    incs = [pos[0] for pos, root, n, ps in fn.nodes() if core.step_of(n) is not None and core.step_of(n)[1] == 1 and key(core.strip_casts(core.step_of(n)[0])) == "i"]
     cyc = cpos[0] in fn.reach_from(fn.blocks[cpos[0]].rsucc(), avoid=incs)
     (rep.violated if cyc or not incs else rep.proved)(
         "R-MPT", fn, "one-dispatch-per-packet", "between two dispatches the packet index advances (no re-dispatch of the same packet)",
